@@ -233,6 +233,76 @@ def repeated_verbatim_case() -> List[str]:
             bad.append(f'variant {name}: Y[1], Z[1] = {(m.Y[1], m.Z[1])}, expected (12.0, 3.0)')
     return bad
 
+def _ordered_code_runner(eq_symbols):
+    """Reference for a hand-assembled symbol list: the statement's own words - each equation symbol's code, inserted
+    verbatim, once, in symbol order - executed in that order on the reference series."""
+    from gram.pipeline import _NS
+
+    def run(prog, env):
+        selfobj = _NS()
+        for n, ser in env.series.items():
+            setattr(selfobj, '_' + n, ser)
+        ns = {'self': selfobj, 't': env.t, 'np': np}
+        for s_ in eq_symbols:
+            exec(s_.code, ns)  # noqa: S102 - the symbol's own code is the specification here
+    return run
+
+
+HAND_SCRIPT = 'Y = X + Z[-1]\n`self._Y[t] = self._Y[t] * 2`\nZ = Y * {a}\n`self._Z[t] = self._Z[t] + self._Y[t]`\n'
+
+
+def hand_order_work(item) -> Dict[str, Any]:
+    """Symbol lists that no script produces (parse_model puts verbatim symbols last): every permutation of the four
+    equation-carrying symbols of HAND_SCRIPT, the equation-less symbols in between.  Solver: the variant's _evaluate
+    against sequential execution of the symbols' code in list order, over symbolic cells, t, L.  Concrete: converter
+    call order and insertion order.  (Added after seeded change C15_r10mut1.)"""
+    perm, variant = item
+    install_user_functions()
+    base = fsic.parse_model(HAND_SCRIPT)
+    eqs = [s for s in base if s.equation is not None]
+    rest = [s for s in base if s.equation is None]
+    order = [eqs[i] for i in perm]
+    symbols = [order[0], rest[0], order[1], order[2], rest[1], order[3]]
+    tag = 'hand-assembled order ' + ''.join(map(str, perm))
+    out: Dict[str, Any] = {'prog': tag, 'layout': variant, 'bad': [], 'paths': 0, 'stats': {}, 'status': 'ok', 'program_level': 1}
+    replay = {'hand_order': list(perm), 'variant': variant}
+    calls: List[Any] = []
+
+    def recording(s_):
+        calls.append(s_.code)
+        return f'pass  # <<{len(calls)}>>'
+
+    code = fsic.build_model_definition(symbols, converter=recording)
+    if calls != [s_.code for s_ in order]:
+        out['bad'].append({'what': f'{tag}: converter called for {calls}, expected the equation symbols in list order', 'replayed': True, 'replay': replay})
+    pos = [code.find(f'        pass  # <<{i + 1}>>') for i in range(len(order))]
+    if any(p < 0 for p in pos) or pos != sorted(pos) or code.count('# <<') != len(order):
+        out['bad'].append({'what': f'{tag}: converter output not inserted once each in symbol order', 'replayed': True, 'replay': replay})
+    try:
+        Model, _ = make_variant(symbols, variant)
+    except Exception as e:  # noqa: BLE001
+        out['bad'].append({'what': f'{tag}: variant {variant} failed to build: {type(e).__name__}: {e}', 'replayed': True, 'replay': replay})
+        return out
+    prog = (Eq(Var('Y'), Bin('+', Var('X'), Var('Z', off=-1))), Eq(Var('Z'), Bin('*', Var('Y'), Var('a'))))
+    ref = classify(prog)
+    for a in ('ENDOGENOUS', 'LAGS', 'LEADS'):
+        want = {'ENDOGENOUS': [s_.name for s_ in order if s_.name], 'LAGS': 1, 'LEADS': 0}[a]
+        if getattr(Model, a) != want:
+            out['bad'].append({'what': f'{tag}: {variant}.{a} = {getattr(Model, a)!r}, expected {want!r}', 'replayed': True, 'replay': replay})
+    rr = _ordered_code_runner(order)
+    r = equivalence(prog, ref, Model, symbols, spelling='pos', check_text=False, check_reads=False, ref_runner=rr)
+    out['paths'] += r['paths']
+    add_stats(out['stats'], r['stats'])
+    out['assumptions'] = r['assumptions']
+    out['spurious'] = r['spurious']
+    if not r['exhausted']:
+        return {'harness_error': f'exploration not exhaustive for {tag}', 'item': tag}
+    for b in r['bad']:
+        rb = replay_values(prog, Model, b['witness'], seed=vlib.seed(), ref_runner=rr)
+        out['bad'].append({'what': f'{tag}, variant {variant}: ' + '; '.join(b['symbolic'][:3]), 'replayed': bool(rb),
+                           'replay': dict(replay, witness=b['witness'], concrete=rb)})
+    return out
+
 
 def main() -> int:
     tier = vlib.tier()
@@ -250,6 +320,11 @@ def main() -> int:
         items += [(p, v, None) for p in ps['fixed'] for v in ('guard_converter', 'guard_converter_exec', 'wrapper_converter_exec')
                   if len(p) + fork_nodes(p) <= 3]
     results = run_items(work, items, soft_items=ps['sampled'])
+    import itertools
+    hand_variants = ['build', 'exec_definition', 'exec_CODE', 'build_untyped', 'identity_converter'] if tier == 'thorough' else ['build', 'exec_definition_untyped']
+    hand_items = [(perm, v) for perm in itertools.permutations(range(4)) for v in hand_variants]
+    hand_results = run_items(hand_order_work, hand_items)
+    results = results + hand_results
     for b in empty_model_case():
         rep.violation('empty-or-equationless:' + b[:40], b, {'case': b})
     for b in repeated_verbatim_case():
